@@ -294,3 +294,79 @@ def _(E):
             else:
                 conds.append(pt_eq(pb[n], pa[n]))
     E.ensure("only_the_window_is_mapped", And(*conds))
+
+
+# --------------------------------------------------------------------------------------------------
+# generic-element rule (pyvc/loops.py): element-wise loops verified on ONE generic element hold for every length
+# --------------------------------------------------------------------------------------------------
+GEN_KINDS = ["Move", "Line", "Close", "QuadraticBezier", "CubicBezier", "Arc"]
+
+
+def one_element_path(E, kind):
+    p = E.construct("Path")
+    g = mk_seg(E, kind, "g", start=E.choice("has_start", [True, False]))
+    E.call(E.get(p, "_segments"), "append", g)
+    E.set(p, "transform", mk_matrix(E, "T"))
+    return p, g
+
+
+@family("C02/Path.reify/generic_element", GEN_KINDS, funcs=["Path.reify", "Matrix.reset"], props=["C02"],
+        uses=["C02/Arc.__imul__/contract"])
+def _(E, kind):
+    E.elementwise_loop("Path.reify", 0)
+    p, g = one_element_path(E, kind)
+    m0 = tuple(mat_fields(p.transform))
+    before = seg_view(E, g)
+    E.call(p, "reify")
+    after = seg_view(E, E.items(E.get(p, "_segments"))[0])
+    conds = [E.same(E.items(E.get(p, "_segments"))[0], g)]
+    for n in before[1]:
+        if kind == "Arc" and n in ("prx", "pry"):
+            continue   # radius points: C02/Arc.__imul__/contract
+        conds.append(after[1][n] is None if before[1][n] is None else pt_eq(after[1][n], apply(m0, before[1][n])))
+    E.ensure("the_generic_segment_is_mapped_in_place", And(*conds))
+    E.ensure("transform_reset", mat_eq(p.transform, T_IDENT))
+
+
+@family("C02/Path.segments/generic_element", GEN_KINDS, funcs=["Path.segments", "PathSegment.__mul__"], props=["C02"],
+        uses=["C02/Arc.__imul__/contract"])
+def _(E, kind):
+    E.elementwise_loop("Path.segments", 0)
+    p, g = one_element_path(E, kind)
+    m0 = tuple(mat_fields(p.transform))
+    E.assume(Not(mat_eq(m0, T_IDENT)))
+    before = seg_view(E, g)
+    out = E.items(E.call(p, "segments", True))
+    after = seg_view(E, out[0])
+    conds = [len(out) == 1, not E.same(out[0], g), after[0] == kind]
+    for n in before[1]:
+        if kind == "Arc" and n in ("prx", "pry"):
+            continue
+        conds.append(after[1][n] is None if before[1][n] is None else pt_eq(after[1][n], apply(m0, before[1][n])))
+    E.ensure("image_of_the_generic_segment_fresh_object", And(*conds))
+    still = seg_view(E, g)
+    E.ensure("stored_segment_untouched", And(*[pt_eq(still[1][n], before[1][n]) for n in before[1]
+                                               if before[1][n] is not None]))
+
+
+@family("C18/Path.__copy__/generic_element", GEN_KINDS, funcs=["Path.__copy__", "Path.__init__"], props=["C18"])
+def _(E, kind):
+    E.elementwise_loop("Path.__copy__", 0)
+    p, g = one_element_path(E, kind)
+    c = E.call(p, "__copy__")
+    cs = E.items(E.get(c, "_segments"))
+    E.ensure("one_copy_per_segment_equal_in_value", And(len(cs) == 1, E.clsname(cs[0]) == kind,
+                                                        *[(seg_view(E, cs[0])[1][n] is None) if seg_view(E, g)[1][n] is None
+                                                          else pt_eq(seg_view(E, cs[0])[1][n], seg_view(E, g)[1][n])
+                                                          for n in seg_view(E, g)[1]]))
+    E.ensure("shares_no_mutable_object", len(set(E.reach(c)) & set(E.reach(p))) == 0)
+
+
+@family("C18/Path.__init__/generic_element", GEN_KINDS, funcs=["Path.__init__"], props=["C18"])
+def _(E, kind):
+    p, g = one_element_path(E, kind)
+    src = E.choice("source", ["path", "subpath"])
+    d = E.construct("Path", p if src == "path" else E.construct("Subpath", p, 0, 0))
+    ds = E.items(E.get(d, "_segments"))
+    E.ensure("segments_are_copied_not_shared", And(len(ds) == 1, not E.same(ds[0], g),
+                                                   len(set(E.reach(d)) & set(E.reach(p))) == 0))
